@@ -21,7 +21,7 @@ def _c09_extra(events):
 
 
 reg("C09", "loaders fail cleanly on malformed or truncated files",
-    parts=[dict(harness="c09_loaders", cases=dict(quick=296, thorough=3552), timeout_case=1800, chunk=1,
+    parts=[dict(harness="c09_loaders", cases=dict(quick=296, thorough=3552), timeout_case=7200, chunk=1,
                 # ~10^5 forks per run: the fake-stack machinery of detect_stack_use_after_return and 30-frame malloc
                 # stacks triple the cost of a fork of the ASan image (measured: 10.5 -> 5.5 ms CPU per child); the crash
                 # stack itself is unaffected. Everything else is the driver's policy (DESIGN 5.5).
@@ -39,7 +39,7 @@ reg("C09", "loaders fail cleanly on malformed or truncated files",
          "removed / duplicated; 11 wrong first lines (class tags), CRLF, BOM, NUL bytes, no final newline, file doubled, "
          "200000-character tokens, 20000-value lines; 150 (600) blind byte flips / deletions / re-insertions / splices "
          "with another seed file (fixed internal seed per file). Every mutant is loaded in a forked child (ASan+UBSan, 1 GiB "
-         "cap on a single allocation); hang = 20 s of CPU TIME exhausted (first run limited to 5 s); the wall-clock watchdog "
+         "cap on a single allocation); hang = 60 s of CPU TIME exhausted (first run limited to 5 s); the wall-clock watchdog "
          "only produces counted skips. A returned object goes through basic queries, the structural C07 Db consistency "
          "rules, save and reload. Keys name the defect: <folded sanitizer kind>:<first /repo function>@<innermost reader>, "
          "<reader>:exception:escaped, <reader>:hang, <reader>:returned-object:<rule>. distinct = (seed kind, instance, batch)",
